@@ -30,6 +30,10 @@ class _Color(Enum):
     RED = "red"
 
 
+class _Mood(str, Enum):  # a str-mixin enum member is an enum member first
+    CALM = "calm"
+
+
 def build(sk, d, V):
     Q = QS[d]
     t, u = Table("t"), Table("u")
@@ -337,12 +341,12 @@ def c04_str(sk: int, d: int, slot: int, s: str) -> int:
     timeout={"quick": 120, "thorough": 600},
     witness=[dict(sk=0, d=2, slot=4, kind=0, n=-5, b=False), dict(sk=5, d=1, slot=1, kind=1, n=0, b=True),
              dict(sk=3, d=0, slot=2, kind=3, n=0, b=False)],
-    doc="the slot holds an int (-N..N), a bool, None (inline NULL), an Enum member or an allow_parametrize=False "
+    doc="the slot holds an int (-N..N), a bool, None (inline NULL), a plain or str-mixin Enum member or an allow_parametrize=False "
         "wrapper (exempt by contract)",
 )
 def c04_scalar(sk: int, d: int, slot: int, kind: int, n: int, b: bool) -> int:
     """
-    bound: 0 <= kind <= 4 and 0 <= slot <= 4
+    bound: 0 <= kind <= 5 and 0 <= slot <= 4
     bound: -N <= n <= N
     """
     slot = pin(slot)
@@ -354,6 +358,8 @@ def c04_scalar(sk: int, d: int, slot: int, kind: int, n: int, b: bool) -> int:
         v, exempt = None, True
     elif kind == 3:
         v, exempt = _Color.RED, True
+    elif kind == 5:
+        v, exempt = _Mood.CALM, True
     else:
         v, exempt = ValueWrapper(42, allow_parametrize=False), True  # (value concrete: it stays in the SQL text)
     if sk == 6 and slot == 2 and kind == 2:
